@@ -22,6 +22,8 @@ CORPORA = {
                           family="stream", trace="StreamTrace.tla", tracecfg="StreamTrace.cfg"),
     "timeout": dict(gen="MCTimeout.tla", cfg={"quick": "timeout_quick.cfg", "thorough": "timeout_thorough.cfg"},
                     family="timeout", trace="TimeoutTrace.tla", tracecfg="TimeoutTrace.cfg"),
+    "router": dict(gen="MCRouter.tla", cfg={"quick": "router_quick.cfg", "thorough": "router_thorough.cfg"},
+                   family="router", trace="RouterTrace.tla", tracecfg="RouterTrace.cfg", shards=16),
     "stream_headers": dict(gen="MCStream.tla", cfg={"quick": "stream_headers_quick.cfg", "thorough": "stream_headers_thorough.cfg"},
                            family="stream", trace="StreamTrace.tla", tracecfg="StreamTrace.cfg"),
 }
@@ -35,6 +37,7 @@ PROPS = {
     "C03": dict(corpora=["stream_matrix", "stream_errors", "stream_faults", "stream_hostile"], prefix="C03."),
     "C04": dict(corpora=["stream_errors"], prefix="C04."),
     "C05": dict(corpora=["stream_headers"], prefix="C05."),
+    "C06": dict(corpora=["router"], prefix="C06."),
     "C08": dict(corpora=["stream_chunks"], prefix="C08.",
                 design=[("MCFraming.tla", "framing_%s_fixed.cfg" % p) for p in ("R1", "R2", "R3", "R4", "R5", "R5e")]),
     "C09": dict(corpora=["stream_faults"], prefix="C09."),
@@ -106,17 +109,42 @@ def run_corpus(name, tier, seed, work, binary):
     t1 = time.time()
     vlib.run_harness(binary, c["family"], scn_file, trace_file, seed)
     log("[%s] E3 done in %.1fs; E4: trace validation" % (name, time.time() - t1))
-    t = vlib.run_tlc(work, c["trace"], c["tracecfg"], env={"VERIF_TRACE": trace_file}, workers=1, timeout=3600)
-    done = [o for o in t["out"] if "done" in o]
-    if not t["ok"] or not done:
-        raise Inconclusive("E4 did not complete for %s: %s\n%s" % (name, t["errors"][:3], t["raw"][-3000:]))
-    if done[0]["done"] != len(scns):
-        raise Inconclusive("E4 consumed %d of %d trace lines" % (done[0]["done"], len(scns)))
-    harness_errs = [o for o in t["out"] if "harness" in o]
-    if harness_errs:
-        raise Inconclusive("harness reported errors on %d lines (first: %s)" % (len(harness_errs), harness_errs[0]))
-    bad = {o["bad"]: o for o in t["out"] if "bad" in o}
-    return dict(name=name, gen=g, scns=scns, trace_file=trace_file, bad=bad, nlines=len(scns))
+    nsh = c.get("shards", 1)
+    if nsh <= 1:
+        touts = [vlib.run_tlc(work, c["trace"], c["tracecfg"], env={"VERIF_TRACE": trace_file}, workers=1, timeout=3600)]
+        counts = [len(scns)]
+    else:
+        # the judge is heavy for this family: validate shards of the trace in parallel TLC processes
+        import concurrent.futures
+        lines = open(trace_file).read().splitlines()
+        files, counts = [], []
+        for k in range(nsh):
+            part = lines[k::nsh]
+            if not part:
+                continue
+            fn = "%s.shard%d" % (trace_file, k)
+            open(fn, "w").write("\n".join(part) + "\n")
+            files.append(fn)
+            counts.append(len(part))
+        with concurrent.futures.ThreadPoolExecutor(max_workers=len(files)) as ex:
+            touts = list(ex.map(lambda fn: vlib.run_tlc(work, c["trace"], c["tracecfg"], env={"VERIF_TRACE": fn}, workers=1, timeout=3600), files))
+    bad = {}
+    drift = collections.Counter()
+    for t, cnt in zip(touts, counts):
+        done = [o for o in t["out"] if "done" in o]
+        if not t["ok"] or not done:
+            raise Inconclusive("E4 did not complete for %s: %s\n%s" % (name, t["errors"][:3], t["raw"][-3000:]))
+        if done[0]["done"] != cnt:
+            raise Inconclusive("E4 consumed %d of %d trace lines" % (done[0]["done"], cnt))
+        harness_errs = [o for o in t["out"] if "harness" in o]
+        if harness_errs:
+            raise Inconclusive("harness reported errors on %d lines (first: %s)" % (len(harness_errs), harness_errs[0]))
+        bad.update({o["bad"]: o for o in t["out"] if "bad" in o})
+        for o in t["out"]:
+            if "drift" in o:
+                for f in o["f"]:
+                    drift[f] += 1
+    return dict(name=name, gen=g, scns=scns, trace_file=trace_file, bad=bad, nlines=len(scns), drift=dict(drift))
 
 
 def check(pid, tier, seed, work, t0):
@@ -177,7 +205,7 @@ def check(pid, tier, seed, work, t0):
                 if tag.startswith(prop["prefix"]):
                     kf_seen.setdefault(kid, []).append(sid)
         per_corpus[name] = dict(states=r["gen"]["distinct"], transitions=r["gen"]["generated"], scenarios=r["nlines"],
-                                rejected_traces=nviol, tlc_gen_s=round(r["gen"]["wall"], 1))
+                                rejected_traces=nviol, tlc_gen_s=round(r["gen"]["wall"], 1), model_drift=r["drift"])
     if not samples:
         samples.append("no non-trivial sample selected")
     rc = 0
